@@ -209,12 +209,14 @@ class CorpusShufflingTool:
                 cut = numpy.random.uniform(to_split.segment.start + security, to_split.segment.end)
 
 
-                try:
-                    continuum.add(annotator, Segment(cut, to_split.segment.end), to_split.annotation)
-                    continuum.add(annotator, Segment(to_split.segment.start, cut), to_split.annotation)
-                except ValueError:
+                first_part = Segment(to_split.segment.start, cut)
+                second_part = Segment(cut, to_split.segment.end)
+                if first_part.duration == 0.0 or second_part.duration == 0.0:
+                    # cut too close to one end of the unit : it is left as it was
                     continuum.add(annotator, to_split.segment, to_split.annotation)
-                    continuum.add(annotator, to_split.segment, to_split.annotation)
+                else:
+                    continuum.add(annotator, second_part, to_split.annotation)
+                    continuum.add(annotator, first_part, to_split.annotation)
 
 
     def corpus_shuffle(self,
